@@ -98,7 +98,7 @@ def merge_domain(case):
         return False
     for j in range(k):
         shapes = {tuple(loaded_shape(case["files"][s])) for s in src[j * split:(j + 1) * split]}
-        if len(shapes) != 1 or any(len(sh) == 0 for sh in shapes):
+        if len(shapes) != 1:
             return False
     return True
 
@@ -171,7 +171,7 @@ def merge_case(rng, k, split, pre=(), missing=(), n_src=None, shapes=None, tname
     n_src = max(0, k * split) if n_src is None else n_src
     per = max(split, 1)
     shapes = shapes or {}
-    default = rng.choice([(3,), (4,), (2,), (8,), (2, 3), (3, 2)])
+    default = rng.choice([(3,), (4,), (2,), (8,), (2, 3), (3, 2), (1,)])      # (1,): a result file holding a single number
     fmt = rng.choice(["col", "row"])
     files = {}
     sources = [f"s{i}.txt" for i in range(n_src)]
@@ -219,7 +219,7 @@ def gen_merge_cases(ctx):
     # different shapes in different groups (valid), two-dimensional tables, large values
     for _ in range(300 if ctx.thorough else 60):
         k, split = rng.randint(1, kmax), rng.randint(2, smax)
-        shapes = {j: rng.choice([(2,), (3,), (5,), (16,), (2, 2), (2, 4), (3, 3)]) for j in range(k)}
+        shapes = {j: rng.choice([(2,), (3,), (5,), (16,), (2, 2), (2, 4), (3, 3), (1,)]) for j in range(k)}
         cases.append(merge_case(rng, k, split, shapes=shapes, family="random:valid-mixed-shapes"))
     for _ in range(150 if ctx.thorough else 20):
         k, split = rng.randint(1, 6), rng.randint(2, 12)
@@ -802,8 +802,6 @@ def main(ctx):
             f"tables of different length inside one group: numpy raises ValueError half-way; in {partial} of {len(shp)} such "
             "calls earlier targets had already been written (outside the statement, which lists only the four refusal "
             "conditions; Lean: merge_frame still guarantees that nothing but targets is touched)",
-            "result files holding a single number load as 0-d arrays and np.savetxt rejects them (ValueError after creating an "
-            "empty target); tables are assumed to have >= 2 entries (a distribution over >= 1 qubit)",
         ]
         cov["trusted_base"] += [
             "hand-written models QG/Model/Merge.lean and QG/Model/Pool.lean, tied by exact differential correspondence on every "
